@@ -131,9 +131,9 @@ FLOORS = {
                       "hist_rescale_calls": 60, "hist_grid_state_changed": 60,
                       "hist_grid_vs_fresh_grid": 60,
                       "build_on_grid_rescaled_after_construction": 130,
-                      "hist_refsys_judged": 90, "hist_early_vs_fresh": 55,
+                      "hist_refsys_judged": 110, "hist_early_vs_fresh": 55,
                       "hist_fresh_grid_solver": 40, "hist_basis_across_rescale": 42,
-                      "hist_derived_judged": 5000, "hist_exactness": 8},
+                      "hist_derived_judged": 8000, "hist_exactness": 8},
               "cls": {"basis:T": 12, "basis:v": 12, "basis:field": 12, "basis:combined": 12,
                       "conv:T": 3, "conv:v": 3, "conv:field": 3, "conv:combined": 3,
                       "phys": 28, "hist": 40, "hist:Grid": 10, "hist:Grid3Scales": 24,
@@ -148,9 +148,9 @@ FLOORS = {
                          "hist_rescale_calls": 300, "hist_grid_state_changed": 300,
                          "hist_grid_vs_fresh_grid": 300,
                          "build_on_grid_rescaled_after_construction": 650,
-                         "hist_refsys_judged": 450, "hist_early_vs_fresh": 275,
+                         "hist_refsys_judged": 550, "hist_early_vs_fresh": 275,
                          "hist_fresh_grid_solver": 200, "hist_basis_across_rescale": 210,
-                         "hist_derived_judged": 25000, "hist_exactness": 40},
+                         "hist_derived_judged": 40000, "hist_exactness": 40},
                  "cls": {"basis:T": 90, "basis:v": 90, "basis:field": 90,
                          "basis:combined": 90, "conv:T": 18, "conv:v": 18, "conv:field": 18,
                          "conv:combined": 18, "phys": 280, "hist": 200, "hist:Grid": 50,
@@ -1432,21 +1432,25 @@ def _case_hist(case):
             pq = _grid_quantities(pristine.grid)
             mon["hist_grid_vs_fresh_grid"] += 1
             bad = _gridq_differ(now, pq, 8)
-            if cfg["gridKind"] == "Grid":
-                cf = R.plain_grid_closed_form(M, N, stp["state"]["L"] * setup.L,
-                                              stp["state"]["Tmom"] * setup.T0)
-                bad += [q + "(closed form)" for q in cf
-                        if not float(np.abs(now[q] - cf[q]).max()) <= 64 * EPS * float(np.abs(cf[q]).max())]
             if bad:
                 viol.append({"mech": "grid-rescaled-in-place-differs-from-grid-built-with-same-parameters",
                              "msg": f"after {cfg['gridKind']} {stp['op']} rescale (step {k}, "
                                     f"{stp['which']}) the cached {bad} differ from a grid constructed "
                                     f"with the same parameters", "data": {"bad": bad}})
                 return _finish(case, obs, viol, cls, None, True)
-            if not (last or case["interleave"]):
+            if cfg["gridKind"] == "Grid":
+                cf = R.plain_grid_closed_form(M, N, stp["state"]["L"] * setup.L,
+                                              stp["state"]["Tmom"] * setup.T0)
+                bad = [q for q in cf if not float(np.abs(now[q] - cf[q]).max())
+                       <= 64 * EPS * float(np.abs(cf[q]).max())]
+                if bad:
+                    viol.append({"mech": "grid-quantities-differ-from-documented-compactification",
+                                 "msg": f"Grid after {stp['op']} rescale (step {k}): {bad} differ from "
+                                        f"chi = xi/sqrt(xi^2+L^2), rho_z = tanh(p_z/2T), rho_par = "
+                                        f"1-2exp(-p_par/T) and their derivatives", "data": {"bad": bad}})
+                    return _finish(case, obs, viol, cls, None, True)
+            if last or not case["interleave"]:
                 continue
-            if last:
-                break
             # intermediate stage, as in the EOM loop: new background, solve again
             for sv, (bM, bN, mode) in zip(earlies, case["early"]):
                 def again(sv=sv, bN=bN):
@@ -1460,10 +1464,23 @@ def _case_hist(case):
                     mon["hist_refsys_judged"] += 1
                     stage_etas.append(eta)
                     if not (eta <= tol_ref):
-                        tag, kk = _attribute_stale_grid(setup, R.coeffs_to_values(df, M, N, bM, bN),
-                                                        snaps, tol_ref)
-                        viol.append(_stale_violation(tag, kk, eta, tol_ref, k, len(steps), bM, bN,
-                                                     cfg, stp))
+                        # control: the same configuration on a solver constructed now
+                        dfc = np.asarray(_guarded(
+                            lambda bM=bM, bN=bN: setup.solver(bM, bN, "Spectral").solveBoltzmannEquations(),
+                            viol, f"stage {k} control"), dtype=float)
+                        eta_ctl = _refsys_eta(setup, R.coeffs_to_values(dfc, M, N, bM, bN), pq)
+                        if eta_ctl <= tol_ref:
+                            tag, kk = _attribute_stale_grid(
+                                setup, R.coeffs_to_values(df, M, N, bM, bN), snaps, tol_ref)
+                            viol.append(_stale_violation(tag, kk, eta, tol_ref, k, len(steps),
+                                                         bM, bN, cfg, stp))
+                        else:
+                            viol.append({"mech": "solution-violates-reference-system",
+                                         "msg": f"stage {k}: deltaF of the {bM}/{bN} spectral solver "
+                                                f"has backward error {eta:.3e} (a freshly built one: "
+                                                f"{eta_ctl:.3e}) > {tol_ref:.2e} against the "
+                                                f"independently assembled system",
+                                         "data": {"eta": eta, "tol": tol_ref}})
             _collect(viol, None, f"stage {k}")
 
         # ---- final stage: early solvers (new background) vs solvers constructed now
@@ -1504,38 +1521,48 @@ def _case_hist(case):
                      f"constructed; M={M} N={N} P={obs['P']} bg={bgtype}/{cfg['bg']['kind']} "
                      f"warm={case['warm']}")
 
-        # (a) reference system of the ACTUAL grid: control (solver built after) and early ones
-        eta_c = _refsys_eta(setup, ref["vals"], pq)
-        mon["hist_refsys_judged"] += 1
+        # Attribution rule for everything below: a disagreement that the identically
+        # configured solver built *after* the rescale shows as well is not a matter of history
+        # and keeps the mechanism name it has in the other kinds; only what separates the
+        # solver built before from its twin built after is reported under a history name.
+
+        # (a) reference system of the ACTUAL grid: solvers built after (controls) and before
+        eta_f = {}
+        for spec, r in runs_f.items():
+            if spec[2] != "Spectral":
+                continue
+            eta_f[spec] = _refsys_eta(setup, r["vals"], pq)
+            mon["hist_refsys_judged"] += 1
+            if not (eta_f[spec] <= tol_ref):
+                viol.append({"mech": "solution-violates-reference-system",
+                             "msg": f"deltaF of a freshly built {spec[0]}/{spec[1]} spectral solver "
+                                    f"has backward error {eta_f[spec]:.3e} > {tol_ref:.2e} against "
+                                    f"the independently assembled system ({hist_desc})",
+                             "data": {"eta": eta_f[spec], "tol": tol_ref}})
+        eta_c = eta_f["Cardinal", "Cardinal", "Spectral"]
         obs["refsys_eta_control"] = eta_c
-        control_ok = eta_c <= tol_ref
-        if not control_ok:
-            viol.append({"mech": "solution-violates-reference-system",
-                         "msg": f"deltaF of a freshly built Cardinal/Cardinal spectral solver has "
-                                f"backward error {eta_c:.3e} > {tol_ref:.2e} against the "
-                                f"independently assembled system ({hist_desc})",
-                         "data": {"eta": eta_c, "tol": tol_ref}})
         for r, (bM, bN, mode) in zip(runs_e, case["early"]):
             if mode != "Spectral":
                 continue
             eta = _refsys_eta(setup, r["vals"], pq)
             mon["hist_refsys_judged"] += 1
             stage_etas.append(eta)
-            if not (eta <= tol_ref) and control_ok:
+            if not (eta <= tol_ref) and eta_f[bM, bN, mode] <= tol_ref:
                 tag, kk = _attribute_stale_grid(setup, r["vals"], snaps, tol_ref)
                 viol.append(_stale_violation(tag, kk, eta, tol_ref, len(steps) - 1, len(steps),
                                              bM, bN, cfg, steps[-1]))
         obs["refsys_eta_max"] = max(stage_etas) if stage_etas else None
-        obs["refsys_units"] = (max(stage_etas + [eta_c])) / (EPS * M * M * (1.0 + 1.0 / amin))
+        obs["refsys_units"] = (max(stage_etas + list(eta_f.values()))) / (EPS * M * M * (1.0 + 1.0 / amin))
 
         # (b) same configuration, solver built before vs after the rescale
-        worst_tw = 0.0
+        worst_tw, twin_bad = 0.0, set()
         for r, spec in zip(runs_e, case["early"]):
             tw = runs_f[tuple(spec)]
             err = float(np.abs(r["vals"] - tw["vals"]).max()) / fscale
             mon["hist_early_vs_fresh"] += 1
             worst_tw = max(worst_tw, err)
             if not (err <= tau):
+                twin_bad.add(tuple(spec))
                 viol.append({"mech": "solver-built-before-grid-rescale-differs-from-fresh-solver",
                              "msg": f"{spec[0]}/{spec[1]} {spec[2]}: deltaF of the solver that "
                                     f"existed before the rescale differs from an identically "
@@ -1543,7 +1570,6 @@ def _case_hist(case):
                                     f"object by {err:.3e} (relative), tolerance {tau:.2e} = "
                                     f"{K_FWD:g}*eps*kappa_1; {hist_desc}",
                              "data": {"err": err, "tol": tau}})
-                break
         obs["early_vs_fresh"] = worst_tw
         # (b') the grid object's history must not matter either
         errp = float(np.abs(rp["vals"] - ref["vals"]).max()) / fscale
@@ -1557,7 +1583,7 @@ def _case_hist(case):
                          "data": {"err": errp, "tol": tau}})
 
         # (c) basis independence across the rescale + derived quantities
-        worst_b, bad_b = 0.0, {}
+        worst_b, bad_hist, bad_basis = 0.0, {}, {}
         for r, (bM, bN, mode) in zip(runs_e, case["early"]):
             if mode != "Spectral":
                 continue
@@ -1565,31 +1591,48 @@ def _case_hist(case):
             mon["hist_basis_across_rescale"] += 1
             worst_b = max(worst_b, err)
             if not (err <= tau):
-                bad_b[f"{bM}/{bN}"] = err
+                ((bad_hist if (bM, bN, mode) in twin_bad else bad_basis))[f"{bM}/{bN}"] = err
         obs["basis_across_rescale"] = worst_b
-        if bad_b:
+        if bad_hist:
             viol.append({"mech": "deltaF-differs-between-bases-across-grid-rescale",
-                         "msg": f"deltaF on the grid: solver(s) built before the rescale {bad_b} vs "
+                         "msg": f"deltaF on the grid: solver(s) built before the rescale {bad_hist} vs "
                                 f"Cardinal/Cardinal solver built after it (relative to max|deltaF|), "
                                 f"tolerance {tau:.2e}; {hist_desc}",
-                         "data": {"err": bad_b, "tol": tau}})
-        else:
+                         "data": {"err": bad_hist, "tol": tau}})
+        if bad_basis:
+            # the twin built after the rescale agrees with the early solver: plain dependence
+            # on the basis, named as in kind=basis
+            axes = {a for k in bad_basis for a, f in (("position", not k.startswith("Card")),
+                                                      ("momentum", not k.endswith("Cardinal"))) if f}
+            single = [k for k in bad_basis if k.startswith("Card") or k.endswith("Cardinal")]
+            which = "+".join(a for a in ("position", "momentum") if a in axes) if single \
+                else "combined-only"
+            viol.append({"mech": f"deltaF-depends-on-{which}-basis",
+                         "msg": f"deltaF on the grid differs between basis choices {bad_basis} "
+                                f"(relative to max|deltaF|, reference Cardinal/Cardinal), tolerance "
+                                f"{tau:.2e}; the solver built after the rescale shows the same; "
+                                f"{hist_desc}", "data": {"err": bad_basis, "tol": tau}})
+        if not (bad_hist or bad_basis):
             q0, S = _sensitivities(ref, setup, rng)
+            # history: every early solver against its twin built after the rescale
+            v_hist = []
+            for r, sp in zip(runs_e, case["early"]):
+                _judge_derived(runs_f[tuple(sp)]["derived"], S, tau,
+                               {"the same solver built before the rescale": r["derived"]},
+                               mon, v_hist, "hist_derived",
+                               lambda name: f"{_DER_MECH[name]}-differ-across-grid-rescale",
+                               f"{sp[0]}/{sp[1]} {sp[2]} solver built after the rescale", hist_desc)
+            viol.extend(v_hist)
+            hist_names = {v["data"]["name"] for v in v_hist}
+            # cross: solvers built before (any basis) vs Cardinal/Cardinal built after
             others = {f"{sp[0]}/{sp[1]} built before the rescale": r["derived"]
                       for r, sp in zip(runs_e, case["early"]) if sp[2] == "Spectral"}
-            others["Cardinal/Cardinal on a fresh grid"] = rp["derived"]
+            others["Cardinal/Cardinal on a grid built with the final parameters"] = rp["derived"]
             obs["derived"] = _judge_derived(
                 q0, S, tau, others, mon, viol, "hist_derived",
-                lambda name: f"{_DER_MECH[name]}-differ-across-grid-rescale",
+                lambda name: (f"{_DER_MECH[name]}-differ-across-grid-rescale"
+                              if name in hist_names else f"{_DER_MECH[name]}-depends-on-basis"),
                 "Cardinal/Cardinal built after the rescale", hist_desc)
-            for r, sp in zip(runs_e, case["early"]):
-                if sp[2] != "Spectral":     # finite differences: against its own twin
-                    tw = runs_f[tuple(sp)]
-                    _judge_derived(tw["derived"], S, tau, {"the same built before the rescale":
-                                                           r["derived"]},
-                                   mon, viol, "hist_derived",
-                                   lambda name: f"{_DER_MECH[name]}-differ-across-grid-rescale",
-                                   "finite-difference solver built after the rescale", hist_desc)
 
         # (d) polynomial backgrounds: closed-form exactness on the rescaled grid
         if cfg["bg"]["kind"] == "poly":
